@@ -294,15 +294,48 @@ pub fn c08_canonical(input: &str, cfg: &Cfg, well_formed: bool) -> Vec<String> {
     fails
 }
 
-fn has_line_spanning_verbatim(input: &str) -> bool {
-    // multi-line comments, verbatim regions, (possibly untouched) multi-line strings
+/// The formatter's own acceptance condition for re-indenting a multi-line string (anything else is kept verbatim):
+/// the last `str::lines` line is blank before the closing quotes, and every interior line starts with that blank prefix
+/// or is itself a prefix of it.
+fn mls_accepted_for_reindent(c: &str) -> bool {
+    let Some(last_line) = c.lines().last() else { return false };
+    let base = last_line.trim_end_matches('\'');
+    if !base.chars().all(|ch| ch.is_whitespace()) {
+        return false;
+    }
+    let mut lines: Vec<&str> = Vec::new();
+    let mut rest = c;
+    loop {
+        match rest.find(['\r', '\n']) {
+            None => {
+                lines.push(rest);
+                break;
+            }
+            Some(i) => {
+                lines.push(&rest[..i]);
+                let adv = if rest[i..].starts_with("\r\n") { 2 } else { 1 };
+                rest = &rest[i + adv..];
+            }
+        }
+    }
+    lines.iter().skip(1).all(|l| l.starts_with(base) || base.starts_with(l))
+}
+
+fn has_line_spanning_verbatim(input: &str, fmt_mls: bool) -> bool {
+    // multi-line comments, verbatim regions, untouched multi-line strings; a valid multi-line string that the
+    // formatter re-indents is NOT verbatim: its interior terminators must be the configured ones
     let toks = lex_offsets(input);
     if !verbatim_regions(input, &toks).is_empty() {
         return true;
     }
     toks.iter().any(|t| {
         let c = &input[t.start + t.ws_len..t.end];
-        (c.contains('\n') || c.contains('\r')) || matches!(t.kind, RawTokenType::Keyword(KeywordKind::Asm))
+        let spans = c.contains('\n') || c.contains('\r');
+        let rewritten_mls = fmt_mls
+            && matches!(t.kind, RawTokenType::TextLiteral(TextLiteralKind::MultiLine))
+            && mls_value(c).is_some()
+            && mls_accepted_for_reindent(c);
+        (spans && !rewritten_mls) || matches!(t.kind, RawTokenType::Keyword(KeywordKind::Asm))
     })
 }
 
@@ -312,7 +345,7 @@ pub fn c09_line_endings(input: &str, cfg: &Cfg) -> Vec<String> {
     lf.crlf = false;
     let mut crlf = cfg.clone();
     crlf.crlf = true;
-    let spanning = has_line_spanning_verbatim(input);
+    let spanning = has_line_spanning_verbatim(input, cfg.fmt_mls);
     let o_lf = fmt(input, &lf);
     let o_crlf = fmt(input, &crlf);
     if !spanning {
